@@ -9,6 +9,7 @@ import (
 	"bytes"
 	"fmt"
 	"sort"
+	"strings"
 
 	"github.com/mit-pdos/go-journal/addr"
 	"github.com/mit-pdos/go-journal/buf"
@@ -239,11 +240,11 @@ func Fsck(fs *fstxn.FsState, opts FsckOpts) *FsckReport {
 			} else {
 				ent = zeroBlock[:dir.DIRENTSZ]
 			}
-			if leU64(ent[8:]) > dir.MAXNAMELEN {
-				r.bad("dir", "directory %s (inode %d): entry at offset %d has name length %d", path, inum, off, leU64(ent[8:]))
+			child, name, derr := decodeDirEnt(ent)
+			if derr != nil {
+				r.bad("dir", "directory %s (inode %d): the entry at offset %d cannot be decoded: %v", path, inum, off, derr)
 				continue
 			}
-			child, name := dir.VerifDecodeDirEnt(ent)
 			if child == common.NULLINUM {
 				continue
 			}
@@ -297,7 +298,12 @@ func Fsck(fs *fstxn.FsState, opts FsckOpts) *FsckReport {
 	}
 	root := inodes[uint64(common.ROOTINUM)]
 	if root != nil {
-		r.RootBlocks = len(root.data)
+		// every block the root directory owns: its data blocks and, once it has more than 256 entries, its index blocks
+		for _, who := range owner {
+			if strings.HasPrefix(who, "inode 1 ") {
+				r.RootBlocks++
+			}
+		}
 	}
 	if root == nil || root.ip.Kind != nt.NF3DIR {
 		r.bad("tree", "the root inode is not a directory")
@@ -409,4 +415,19 @@ func fsckServer(s *Srv) (*FsckReport, error) {
 	s.N.VerifWaitShrinkers()
 	r := Fsck(s.N.VerifFsState(), FsckOpts{})
 	return r, r.Err()
+}
+
+// decodeDirEnt uses the repository's own decoder (so that the entry layout is not duplicated here);
+// a garbage entry makes that decoder panic, which is reported as an undecodable entry.
+func decodeDirEnt(ent []byte) (inum common.Inum, name string, err error) {
+	defer func() {
+		if r := recover(); r != nil {
+			err = fmt.Errorf("%v", r)
+		}
+	}()
+	inum, name = dir.VerifDecodeDirEnt(ent)
+	if uint64(len(name)) > dir.MAXNAMELEN {
+		err = fmt.Errorf("name of %d bytes", len(name))
+	}
+	return
 }
